@@ -673,8 +673,8 @@ def features(v, f, ann_len):
         # `Tuple(items=Owner)` / `Tuple(items=[X, Owner])`: Tuple.__init__ converts Field classes only
         # (was the finding tuple-items-structure-class, fixed in typedpy: no longer a known divergence)
     d = f.get("dflt")
-    if d and d["how"] == "kw" and not _truthy(d["v"]):
-        out.append("falsy-default-kw")
+    if d and d["how"] == "kw" and d["v"] is not None and not _truthy(d["v"]):
+        out.append("falsy-default-kw")       # (`default=None` is simply "no default": no divergence expected)
     if f.get("unresolved") and v.get("scope") == "enclosing":
         out.append("string-annotation-enclosing-scope")  # names of an enclosing function are not visible to eval
     res = []
@@ -767,7 +767,8 @@ def field_variants(rng, vg, name, m, n_random, extra_tys=(), default=RANDOM_DEFA
 
     def hows_for(mode, ty):
         if default is NODEF:
-            return [None]
+            # `default=None` (the keyword's own default) is one more way of writing "no default"
+            return [None] + (["kwNone"] if ty["s"] in KW_ALLOWED and rng.random() < 0.25 else [])
         if default is None:
             return (["eq"] if mode == "ann" else []) + ([None] if has_none else [])
         hs = ["eq"] if mode == "ann" else []
@@ -779,7 +780,10 @@ def field_variants(rng, vg, name, m, n_random, extra_tys=(), default=RANDOM_DEFA
 
     def add(ty, mode, how):
         f = {"name": name, "mode": mode, "ty": ty}
-        if how is not None and how.endswith("F"):
+        if how == "kwNone":
+            how = "kw"
+            f["dflt"] = {"how": "kw", "v": None, "len": 4}
+        elif how is not None and how.endswith("F"):
             f["dflt"] = {"how": how, "v": default["v"], "src": default["src"], "len": len(default["src"])}
         elif how is not None:
             f["dflt"] = {"how": how, "v": default, "len": len(py_literal(default))}
